@@ -335,6 +335,15 @@ func c17LastBlock(rt *rapid.T, rec *ev.Recorder) {
 		if retry && !allowResize && !errors.Is(err, flows.ErrMaxL2BlockNumberExceededInARetryCert) {
 			rt.Fatalf("retry certificate that may not be resized: unexpected error kind %v", err)
 		}
+		// "complete" ends the certificate stream for good: it may only be declared when no sendable event is left at or
+		// below the limit, otherwise the events of [from, max] are dropped for ever
+		if errors.Is(err, flows.ErrComplete) && l.From <= max {
+			wb, wc := l.prefix(max)
+			if len(wb) >= 1 || (!requireBridge && len(wc) >= 1) {
+				rt.Fatalf("limiter max=%d on [%d,%d] (layout[%s]) declared the stream complete although blocks [%d,%d] still hold %d bridges / %d claims that were never certified: %v",
+					max, l.From, l.To, l.Desc, l.From, max, len(wb), len(wc), err)
+			}
+		}
 		rec.Case(false, key)
 		rec.Class("last_block_refused")
 		return
